@@ -94,11 +94,33 @@ func (c *checker) historyIP(texts []string, rng *rand.Rand) {
 }
 
 // historyNames is the sequential second pass for the hostname twins.
-func (c *checker) historyNames(names []string, rng *rand.Rand) {
+func (c *checker) historyNames(names []string, rng *rand.Rand, volume bool) {
 	rng.Shuffle(len(names), func(i, j int) { names[i], names[j] = names[j], names[i] })
 	both := func(s string) {
 		c.check(pHost, s, s, nil, nil)
 		c.check(pLabel, s, s, nil, nil)
+	}
+	if volume {
+		// lossy-key memos: names with the same 32-bit checksum back to back, and volume
+		nv, ns := c03.VolumeSize()
+		vn, good := c03.VolumeNames(ns)
+		for k, v := range c03.CollidingPairs(vn, good, 40) {
+			a, b := v.Base, v.Alike
+			if k%2 == 1 {
+				a, b = b, a
+			}
+			c.check(pHost, a, a, nil, map[string]any{"pair": v.Kind, "second": b})
+			c.check(pHost, b, b, nil, map[string]any{"pair": v.Kind, "first": a})
+			c.check(pHost, a, a, nil, nil)
+		}
+		idx := rng.Perm(nv)
+		for _, i := range idx {
+			c.check(pHost, vn[i], vn[i], nil, nil)
+		}
+		rng.Shuffle(len(idx), func(i, j int) { idx[i], idx[j] = idx[j], idx[i] })
+		for _, i := range idx {
+			c.check(pHost, vn[i], vn[i], nil, nil)
+		}
 	}
 	for _, v := range c03.LimitPairs() {
 		both(v.Base)
